@@ -29,7 +29,7 @@ import sx
 from common import (COQ, VERIF, Verdict, log, proof_stage, repo_blob_ids, write_evidence, TRUSTED_BASE)
 
 PROP = 'C07'
-PROOF_FILES = [f for f in ['proofs/SortLib.v', 'proofs/C07Proofs.v'] if os.path.exists(os.path.join(COQ, f))]
+PROOF_FILES = [f for f in ['proofs/SortLib.v', 'proofs/FrameLib.v', 'proofs/C07Proofs.v'] if os.path.exists(os.path.join(COQ, f))]
 SEEDS = ['0', '1', '424242']
 
 
@@ -98,9 +98,9 @@ def main(tier, seed):
     info = proof_stage(PROP, PROOF_FILES, v) if have_props else dict(build_ok=True, ok=True, note='no property file yet')
     rng = random.Random(seed * 9176 + 7)
     n_charts = 400 if tier == 'quick' else 4000
-    profile = genchart.Profile(p_orth=0.4, p_history=0.3, p_contract=0.25, same_source_boost=0.4, p_prio=0.5,
+    profile = genchart.Profile(p_hist_target=0.15, p_orth=0.4, p_history=0.3, p_contract=0.25, same_source_boost=0.4, p_prio=0.5,
                                n_trans=(4, 14), max_states=13,
-                               alt=(0.4, genchart.parallel_profile(p_entry_code=0.6, p_action=0.7)))
+                               alt=[(0.25, genchart.parallel_profile(p_entry_code=0.6, p_action=0.7)), (0.15, genchart.nested_parallel_chart)])
     n_viol = 0
     jobs = []
     refs = []
